@@ -122,6 +122,31 @@ func init() {
 		}
 		return out
 	})
+	externals["reflect.AppendSlice"] = h(func(fr *frame, a []value) value {
+		t, v := rvParts(a[0])
+		_, v2 := rvParts(a[1])
+		s1, _ := v.([]value)
+		s2, _ := v2.([]value)
+		out := make([]value, len(s1), len(s1)+len(s2))
+		copy(out, s1)
+		for _, x := range s2 {
+			out = append(out, copyVal(x))
+		}
+		return mkRV(t, out)
+	})
+	externals["(reflect.Value).Type"] = h(func(fr *frame, a []value) value {
+		t, _ := rvParts(a[0])
+		if t == nil {
+			panic(targetPanic{rtErr("reflect: call of reflect.Value.Type on zero Value")})
+		}
+		var dyn types.Type = types.Typ[types.UnsafePointer]
+		if p := fr.i.prog.ImportedPackage("reflect"); p != nil {
+			if m := p.Type("rtype"); m != nil {
+				dyn = types.NewPointer(m.Type())
+			}
+		}
+		return iface{t: dyn, v: rtype{t}}
+	})
 	externals["(reflect.Value).IsValid"] = h(func(fr *frame, a []value) value {
 		t, _ := rvParts(a[0])
 		return t != nil
